@@ -74,26 +74,35 @@ def grep_forbidden():
     return hits
 
 
+def prop_files(prop):
+    """Props/<prop>.lean plus companion files Props/<prop><Suffix>.lean (e.g. C11Examples.lean)."""
+    d = os.path.join(SRC, 'Props')
+    out = []
+    for f in sorted(os.listdir(d)):
+        if f.endswith('.lean') and re.match(r'^%s([A-Za-z]\w*)?\.lean$' % re.escape(prop), f):
+            out.append(f[:-5])
+    return out
+
+
 def theorems_of(prop):
-    """Names of the theorems stated in Props/<prop>.lean (fully qualified)."""
-    path = os.path.join(SRC, 'Props', prop + '.lean')
-    if not os.path.exists(path):
-        return []
-    code = strip_comments(open(path).read())
-    ns = []
+    """Names of the theorems stated in Props/<prop>*.lean (fully qualified)."""
     names = []
-    for line in code.splitlines():
-        m = re.match(r'\s*namespace\s+(\S+)', line)
-        if m:
-            ns.append(m.group(1))
-            continue
-        m = re.match(r'\s*end\s+(\S+)', line)
-        if m and ns and ns[-1] == m.group(1):
-            ns.pop()
-            continue
-        m = re.match(r'\s*(?:private\s+|protected\s+)?theorem\s+([^\s:({\[]+)', line)
-        if m:
-            names.append('.'.join(ns + [m.group(1)]))
+    for mod in prop_files(prop):
+        path = os.path.join(SRC, 'Props', mod + '.lean')
+        code = strip_comments(open(path).read())
+        ns = []
+        for line in code.splitlines():
+            m = re.match(r'\s*namespace\s+(\S+)', line)
+            if m:
+                ns.append(m.group(1))
+                continue
+            m = re.match(r'\s*end\s+(\S+)', line)
+            if m and ns and ns[-1] == m.group(1):
+                ns.pop()
+                continue
+            m = re.match(r'\s*(?:private\s+|protected\s+)?theorem\s+([^\s:({\[]+)', line)
+            if m:
+                names.append('.'.join(ns + [m.group(1)]))
     return names
 
 
@@ -126,7 +135,8 @@ def audit_axioms(prop, names):
             pass
     path = os.path.join(scratch, 'Audit_%s.lean' % prop)
     with open(path, 'w') as f:
-        f.write('import DitModel.Props.%s\n' % prop)
+        for mod in prop_files(prop):
+            f.write('import DitModel.Props.%s\n' % mod)
         for n in names:
             f.write('#print axioms %s\n' % n)
     r = subprocess.run(['lake', 'env', 'lean', path], cwd=LEAN_DIR, capture_output=True, text=True)
@@ -172,7 +182,7 @@ def gate(prop, tier='quick'):
             good += 1
     info['discharged'] = good if not hits else 0
     if tier == 'thorough':
-        r = subprocess.run(['lake', 'env', 'leanchecker', 'DitModel.Props.%s' % prop], cwd=LEAN_DIR,
+        r = subprocess.run(['lake', 'env', 'leanchecker'] + ['DitModel.Props.%s' % m_ for m_ in prop_files(prop)], cwd=LEAN_DIR,
                            capture_output=True, text=True)
         info['leanchecker'] = 'ok' if r.returncode == 0 else (r.stdout + r.stderr)[-800:]
         if r.returncode != 0:
